@@ -141,11 +141,11 @@ def half_points2(draw, v, min_size=1, max_size=5, margin=1):
 
 
 @st.composite
-def polyhedron_points(draw, max_extra=6, box=3, far=False):
+def polyhedron_points(draw, max_extra=6, box=3, far=False, prefer_box=False):
     """Integer points whose hull has non-empty interior: a lattice tetrahedron (or, one time in three, the corners
     of a lattice box, which gives polygonal faces) plus extra lattice points; `far` adds a shift of up to 6."""
     o = draw(st.lists(st.integers(-2, 2), min_size=3, max_size=3))
-    if draw(st.integers(0, 2)) == 0:
+    if draw(st.integers(0, 2)) == 0 or (prefer_box and draw(st.integers(0, 3)) > 0):
         ext = draw(st.lists(st.integers(1, 3), min_size=3, max_size=3))
         pts = [[o[0] + i * ext[0], o[1] + j * ext[1], o[2] + k * ext[2]] for i in (0, 1) for j in (0, 1) for k in (0, 1)]
         max_extra = min(max_extra, 2)
